@@ -7,6 +7,8 @@ CONSTANTS
   RenewMayFail = FALSE
   Gen = FALSE
   MayAbort = TRUE
+  MayFailEarly = TRUE
+  Dev_SeqConsumedOnEarlyFailure = FALSE
   Dev_ResetSeqOnAbort = FALSE
   Dev_GateGap = TRUE
   Dev_FailedRenewSeq = FALSE
